@@ -5,8 +5,9 @@ from mcx import geom
 from mcx.ref import topo, report
 
 PID = 'C09'
+PRINT_ABS = 7.1e-7      # values between 0.1 and 1 are printed with six decimals: 5e-7 per real/imaginary part
 CHUNK = 4
-TOLERANCE = 'sum of junction J lines <= 1e-6*k*max|J| (print precision); J vs pulse-current sum 2e-6*max|I|'
+TOLERANCE = 'sum of junction J lines <= 1e-6*k*max|J| + k*7e-7 (print precision); J vs pulse-current sum 2e-6*max|I| + 7e-7'
 RULE = ('Stars of k=2..4 (thorough: 5) spokes on a hub in EVERY orientation (2^k) and order (k!), and all directed '
         'descriptions of all simple graphs with <=3 (thorough 4) wires on the 5-point lattice (chains, stars, triangles, '
         'quadrilaterals, second junctions), free space and with one or two grounded ends; the model is solved and the '
@@ -135,7 +136,7 @@ def evaluate_extra(c):
                 hv = 0j          # no pulse overlaps this end segment half at all
             expv = hv if e == 0 else -hv
             printed[j] = row[1]
-            if abs(row[1] - expv) > 2e-6 * imax:
+            if abs(row[1] - expv) > 2e-6 * imax + PRINT_ABS:
                 # the known first-end slip: the line shows exactly one of several overlapping pulses
                 indiv = []
                 for p in m.pulses:
@@ -144,7 +145,7 @@ def evaluate_extra(c):
                         if np.linalg.norm(np.array(p.point, float) - X) < tol and np.linalg.norm(v / np.linalg.norm(v) - u) < 1e-4:
                             ii = m.current[p.idx] * (1 if h == 1 else -1)
                             indiv.append(ii if e == 0 else -ii)
-                lo = len(indiv) >= 2 and any(abs(row[1] - x) <= 2e-6 * imax for x in indiv)
+                lo = len(indiv) >= 2 and any(abs(row[1] - x) <= 2e-6 * imax + PRINT_ABS for x in indiv)
                 if lo:
                     lastonly.add(j)
                 viol.append(('J-VALUE-end%d-%s' % (e + 1, 'lastonly' if lo else 'extra'), '%s: object %d end %d prints J=%s, pulse currents on that end sum to %s (%d overlapping pulses)'
@@ -153,7 +154,7 @@ def evaluate_extra(c):
         if len(grp) > 1 and all(j in printed for j in grp):
             tot = sum(printed[j] if ends[j][1] == 1 else -printed[j] for j in grp)
             mx = max(abs(printed[j]) for j in grp)
-            if abs(tot) > 1e-6 * len(grp) * mx + 1e-9 * imax:
+            if abs(tot) > 1e-6 * len(grp) * mx + len(grp) * PRINT_ABS:
                 viol.append(('KIRCHHOFF-%s' % ('lastonly' if any(j in lastonly for j in grp) else 'extra'), '%s: printed J lines at one junction sum to %s (max %g)' % (c['extra'], tot, mx)))
     return dict(viol=viol[:6], canon='extra|' + c['extra'], nontriv=True, outcome='extra', dev=0.0)
 
@@ -243,7 +244,7 @@ def evaluate(c):
                     continue
                 expv = hv if e == 0 else -hv
                 printed[key] = row[1]
-                if abs(row[1] - expv) > 2e-6 * imax:
+                if abs(row[1] - expv) > 2e-6 * imax + PRINT_ABS:
                     # characterise: does the line show exactly ONE of the >=2 overlapping pulse currents?
                     indiv = []
                     for p in m.pulses:
@@ -254,21 +255,21 @@ def evaluate(c):
                             if np.linalg.norm(np.array(p.point, float) - X) < tolp and np.linalg.norm(v / np.linalg.norm(v) - u) < 1e-4:
                                 ii = m.current[p.idx] * (1 if h == 1 else -1)
                                 indiv.append(ii if e == 0 else -ii)
-                    lastonly = len(indiv) >= 2 and any(abs(row[1] - x) <= 2e-6 * imax for x in indiv)
+                    lastonly = len(indiv) >= 2 and any(abs(row[1] - x) <= 2e-6 * imax + PRINT_ABS for x in indiv)
                     if lastonly:
                         lastonly_ends.add(key)
                     viol.append(('J-VALUE-end%d%s' % (e + 1, '-lastonly' if lastonly else ''),
                                  'wire %d end %d prints J=%s, pulse currents on that end sum to %s (k=%d junction, %d overlapping pulses)'
                                  % (wi + 1, e + 1, row[1], expv, len(inj[key]), len(indiv))))
                 # magnitude / phase columns
-                if abs(row[2] - abs(row[1])) > 2e-6 * abs(row[1]) + 1e-30:
+                if abs(row[2] - abs(row[1])) > 2e-6 * abs(row[1]) + 2 * PRINT_ABS:
                     viol.append(('MAG', 'magnitude column %g vs %g' % (row[2], abs(row[1]))))
     for jn in junc:
         if not all(k in printed for k in jn):
             continue
         tot = sum(printed[k] if k[1] == 1 else -printed[k] for k in jn)
         mx = max(abs(printed[k]) for k in jn)
-        if abs(tot) > 1e-6 * len(jn) * mx + 1e-6 * imax * 1e-3:
+        if abs(tot) > 1e-6 * len(jn) * mx + len(jn) * PRINT_ABS:
             lo = any(k in lastonly_ends for k in jn)
             viol.append(('KIRCHHOFF-%s' % ('lastonly' if lo else 'k%d' % len(jn)),
                          'junction %s: printed J lines sum to %s (max %g)' % (jn, tot, mx)))
